@@ -275,6 +275,21 @@ def gen_real_filters(repo):
     m = one(r'else\s+if\s*\(\s*\(\s*r\s*==\s*FILTER_DENIED_TEMPORARY\s*\)\s*&&\s*\(\s*getsetting\s*\(\s*ds\s*,\s*"([^"]*)"\s*,\s*&tmpt\s*\)\s*<=\s*0\s*\)\s*\)\s*\{.*?netwrite\s*\(\s*"((?:[^"\\]|\\.)*)"\s*\)\s*!=\s*0\s*\)\s*return\s+FILTER_ERROR\s*;\s*return\s+(FILTER_\w+)\s*;', sp, 'cb_spf temporary branch', re.S)
     out += lit('KEY_SPF_FAIL_HARD', m[0]) + lit('REPLY_SPF_TEMP', m[1])
     out += '(* what cb_spf returns after it has sent REPLY_SPF_TEMP itself *)\nDefinition SPF_TEMP_RETURNS : Z := %s.\n' % m[2].replace('FILTER_', 'FR_')
+    # dnsbl.c / namebl.c
+    rel = 'qsmtpd/filters/dnsbl.c'
+    db = func_body(strip_comments(read(repo, rel)), 'cb_dnsbl', rel)
+    out += lit('REPLY_DNSBL', one(r'netmsg\[\]\s*=\s*\{\s*"((?:[^"\\]|\\.)*)"', db, 'cb_dnsbl reply'))
+    m = one(r'whitelisted by\s*",\s*c\[(\w+)\]', db, 'cb_dnsbl whitelist log entry')
+    if m not in ('i', 'j'):
+        raise TranslateError('cb_dnsbl: whitelist log line indexes c[] with %r' % m)
+    out += '(* the "whitelisted by" log line of cb_dnsbl names c[j] (the whitelist entry that matched), not c[i] *)\n'
+    out += 'Definition DNSBL_LOG_WHITELIST_BY_J : bool := %s.\n' % ('true' if m == 'j' else 'false')
+    rel = 'qsmtpd/filters/namebl.c'
+    nb = func_body(strip_comments(read(repo, rel)), 'cb_namebl', rel)
+    first_assign = nb.index('*t = ')
+    out += '(* cb_namebl reads blocktype[*t] before it has assigned *t (in the initialiser of its log message) *)\n'
+    out += 'Definition NAMEBL_BLOCKTYPE_ON_ENTRY : bool := %s.\n' % ('true' if 'blocktype[*t]' in nb[:first_assign] else 'false')
+    out += lit('REPLY_NAMEBL', one(r'netmsg\[\]\s*=\s*\{\s*"((?:[^"\\]|\\.)*)"', nb, 'cb_namebl reply'))
     return out
 
 
